@@ -85,4 +85,30 @@ theorem needsMerge_of_two (sm : ServerMap) (v w : VerInfo) (hv : v ∈ sm.recove
 theorem bestRecoverable_isSome (sm : ServerMap) : sm.bestRecoverable = none ↔ sm.recoverable = [] := by
   unfold bestRecoverable; exact maxVer_none _
 
+/-- the shares left in the map after the verifier's marks: exactly those whose slot was not marked -/
+theorem known_afterVerify (sm : ServerMap) (bads : List (ShareKey × List Nat)) :
+    (afterVerify sm bads).known = sm.known.filter (fun e => decide (e.1 ∉ bads.map (·.1))) := by
+  unfold afterVerify
+  induction bads generalizing sm with
+  | nil =>
+    simp only [List.foldl_nil, List.map_nil, List.not_mem_nil, not_false_eq_true, decide_true]
+    exact (List.filter_eq_self.mpr (fun _ _ => rfl)).symm
+  | cons b bads ih =>
+    simp only [List.foldl_cons]
+    rw [ih]
+    simp only [ServerMap.markBadShare, dictPop, List.filter_filter]
+    apply List.filter_congr
+    intro e _
+    obtain ⟨⟨b1, b2⟩, cs⟩ := b
+    simp only [List.map_cons, List.mem_cons, not_or, ne_eq, decide_not, Bool.decide_and, Bool.and_comm]
+
+theorem located_afterVerify (sm : ServerMap) (bads : List (ShareKey × List Nat)) (v : VerInfo) :
+    (afterVerify sm bads).Located v ↔ ∃ key, key ∉ bads.map (·.1) ∧ (key, v) ∈ sm.known := by
+  unfold ServerMap.Located
+  rw [known_afterVerify]
+  simp only [List.mem_filter, decide_eq_true_eq]
+  constructor
+  · rintro ⟨key, h1, h2⟩; exact ⟨key, h2, h1⟩
+  · rintro ⟨key, h1, h2⟩; exact ⟨key, h2, h1⟩
+
 end Tahoe.Mutable.Check
